@@ -180,7 +180,9 @@ func (r pathSetRules) Equivalent(aPath, bPath Path) bool {
 				return false
 			}
 
-			eq := aStep.Key.Equals(bStep.Key)
+			// (The keys might be marked, which does not matter for deciding
+			// whether the two steps select the same element.)
+			eq, _ := aStep.Key.Equals(bStep.Key).Unmark()
 			if !eq.IsKnown() || eq.False() {
 				return false
 			}
